@@ -13,6 +13,7 @@ pub(crate) mod out;
 pub(crate) mod prng;
 
 mod c14;
+mod c15;
 
 use std::env;
 
@@ -37,6 +38,7 @@ fn verif_entry() {
     std::panic::set_hook(Box::new(|_| {}));
     match op.as_str() {
         "c14" => c14::run(seed, n, &mut out),
+        "c15" => c15::run(seed, n, &mut out),
         other => panic!("unknown VERIF_OP {}", other),
     }
     out.finish();
